@@ -143,7 +143,7 @@ Definition simple_builtin (b : builtin) (args : list value) : VM (list value) :=
                | _ => badarg end
   | BRawSet =>
       match a1 with
-      | VTab r => if nargs <? 3 then badarg else vdo _ <- RawSet r a2 a3; vret []
+      | VTab r => if nargs <? 3 then badarg else vdo _ <- RawSet r a2 a3; vret [a1]   (* L.SetTop(1); return 1 *)
       | _ => badarg
       end
   | BRawEqual => if nargs <? 2 then badarg else
@@ -151,6 +151,7 @@ Definition simple_builtin (b : builtin) (args : list value) : VM (list value) :=
   | BSetMt =>
       match a1 with
       | VTab r =>
+          if nargs <? 2 then badarg else   (* L.GetTop() < 2: ArgError(2, "nil or table expected") *)
           match a2 with
           | VNil | VTab _ =>
               vdo prot <- metaOp1 a1 s_mm_metatable;
@@ -410,7 +411,7 @@ Definition gfunction (b : builtin) : VM Z :=
             end
       end
   | BXpcall =>
-      if negb (is_function a1) then badarg else
+      (* the first argument is not type-checked: it is called inside the protected call *)
       if negb (is_function a2) then badarg else
       vdo cf <- cur_frame;
       vdo top0 <- reg_top;
